@@ -74,12 +74,15 @@ pub(crate) fn is_executable(p: &path::PathBuf) -> ⟦(r: ⟧bool⟦)⟧
 pub mod tokio_fs {
     use vstd::prelude::*;
     use super::*;
-    pub struct Metadata { pub ghost dir: bool }
-    impl Metadata { #[verifier::external_body] pub fn is_dir(&self) -> (r: bool) ensures r == self.dir { unimplemented!() } }
+    pub struct Metadata { pub ghost dir: bool, pub ghost size: nat }
+    impl Metadata {
+        #[verifier::external_body] pub fn is_dir(&self) -> (r: bool) ensures r == self.dir { unimplemented!() }
+        #[verifier::external_body] pub fn len(&self) -> (r: u64) ensures r == self.size { unimplemented!() }
+    }
     pub struct File { pub ghost p: Seq<char>, pub ghost rest: Seq<u8>, pub ghost read: Seq<u8> }
     // ASSUMED: stat succeeds exactly when something is there (permission problems aside); it follows symbolic links
     #[verifier::external_body] pub async fn metadata_async(p: &path::Path, Tracked(w): Tracked<&mut World>) -> (r: Result<Metadata, std::io::Error>)
-        ensures *final(w) == *old(w), r matches Ok(md) ==> md.dir == is_dir_spec(p@) && (is_dir_spec(p@) || old(w).fs.dom().contains(p@)), r is Err ==> !is_dir_spec(p@) && !old(w).fs.dom().contains(p@) { unimplemented!() }
+        ensures *final(w) == *old(w), r matches Ok(md) ==> md.dir == is_dir_spec(p@) && (is_dir_spec(p@) || old(w).fs.dom().contains(p@)) && (!is_dir_spec(p@) ==> md.size == old(w).fs[p@].len()), r is Err ==> !is_dir_spec(p@) && !old(w).fs.dom().contains(p@) { unimplemented!() }
     impl File {
         #[verifier::external_body] pub async fn open_async(p: &path::Path, Tracked(w): Tracked<&mut World>) -> (r: Result<File, std::io::Error>)
             ensures *final(w) == *old(w), r matches Ok(f) ==> f.p == p@ && f.read == Seq::<u8>::empty() && (!is_dir_spec(p@) ==> old(w).fs.dom().contains(p@) && f.rest == old(w).fs[p@]) { unimplemented!() }
@@ -95,6 +98,8 @@ pub mod tokio_fs {
 #[verifier::external_body] pub fn result_is(r: Result<String, MonorailError>, other: &String) -> (b: bool) ensures b == (r matches Ok(s) && s@ == other@) { unimplemented!() }
 // C07 / C02: the checksum of what is at a path NOW: lower-case hex SHA-256 of the whole content of a regular file; the empty string for a
 // directory or when nothing is there
+// a SHA-256 digest has 32 bytes, its lower-case hex form 64 characters: never the empty string that stands for "nothing there"
+pub broadcast axiom fn axiom_digest_len(b: Seq<u8>) ensures #[trigger] hex(sha256(b)).len() == 64;
 pub open spec fn sha_now(fs: Map<Seq<char>, Seq<u8>>, p: Seq<char>) -> Seq<char> {
     if is_dir_spec(p) || !fs.dom().contains(p) { Seq::<char>::empty() } else { hex(sha256(fs[p])) }
 }
@@ -107,6 +112,7 @@ pub(crate) async fn get_file_checksum(p: &path::Path, Tracked(w): Tracked<&mut W
 @        // C07 / C02: a function of the file's WHOLE current content (whatever its size), the same wherever it is called from
 @        res matches Ok(s) ==> s@ == sha_now(old(w).fs, p@), // [C07,C02]
 {
+@    broadcast use axiom_digest_len;
     let md = match tokio_fs::metadata_async(p, Tracked(w)).await {
         Ok(md) => md,
         Err(_) => {
